@@ -184,7 +184,13 @@ def explore(h: Harness, max_paths=200000, max_seconds=None, witnesses_per_outcom
     # cross-validation of symbolic paths against the real code
     validated = 0
     mismatches = []
+    uf_skipped = 0
     for out, inputs in witnesses:
+        if any(str(k).startswith("crc!") for k in inputs):
+            # the path rests on a value of the uninterpreted checksum (symbolic garbage that "happens" to carry a valid
+            # CRC): no concrete byte string reproduces the solver's choice, so the path cannot be cross-validated
+            uf_skipped += 1
+            continue
         try:
             r = h.concrete(inputs)
         except Exception as e:  # noqa: BLE001
@@ -206,14 +212,16 @@ def explore(h: Harness, max_paths=200000, max_seconds=None, witnesses_per_outcom
                    "outcome": r.get("outcome")}
         except Exception as e:  # noqa: BLE001
             rep = {"reproduced": False, "key": None, "observed": f"replay crashed: {type(e).__name__}: {e}"}
-        if rep.get("reproduced") is False and r is not None and r.get("spurious"):
+        if rep.get("reproduced") is False and r is not None and (r.get("spurious") or any(str(k).startswith("crc!") for k in v["inputs"])):
+            # rests on an uninterpreted checksum value that no concrete byte string realises (frames with a genuinely
+            # valid checksum are the 'answer'/'exception' kinds of the scripts)
             spurious += 1
             continue
         viols.append({"harness": h.name, "params": h.params, "label": v["label"], "detail": v["detail"],
                       "inputs": v["inputs"], "notes": v.get("notes", []), **rep})
     st = ex.stats()
     st.update({"harness": h.name, "params": h.params, "violations_list": viols, "witnesses_validated": validated,
-               "witness_mismatches": mismatches[:5], "functions": sorted(funcs), "samples": witnesses[:3], "spurious_models": spurious,
+               "witness_mismatches": mismatches[:5], "witnesses_on_uninterpreted_crc": uf_skipped, "functions": sorted(funcs), "samples": witnesses[:3], "spurious_models": spurious,
                "total_wall_s": round(time.perf_counter() - t0, 3)})
     return st
 
